@@ -66,6 +66,19 @@ def handle (op : String) (args : List String) : Option (String × String) :=
   | "u.sub_from_u128", [sc, b] => do
     let sc ← parseNat sc; let b ← parseLimbs b
     pure (su (dSubRev .u128 sc b), su (oSubU sc (val b)))
+  -- scalar on the right: `BigUint ± u32/u64/u128` (digit splitting into `[lo, hi]`, zero padding, `__add2` / `sub2`)
+  | "u.add_u64", [a, sc] => do
+    let a ← parseLimbs a; let sc ← parseNat sc
+    pure (su (.ok (dAddAssign .u64 blk a sc)), su (.ok (ofNat (val a + sc))))
+  | "u.add_u128", [a, sc] => do
+    let a ← parseLimbs a; let sc ← parseNat sc
+    pure (su (.ok (dAddAssign .u128 blk a sc)), su (.ok (ofNat (val a + sc))))
+  | "u.sub_u64", [a, sc] => do
+    let a ← parseLimbs a; let sc ← parseNat sc
+    pure (su (dSubAssign .u64 blk a sc), su (oSubU (val a) sc))
+  | "u.sub_u128", [a, sc] => do
+    let a ← parseLimbs a; let sc ← parseNat sc
+    pure (su (dSubAssign .u128 blk a sc), su (oSubU (val a) sc))
   -- internal hooks: raw slices
   | "raw.add2", [a, b] => do
     let a ← parseLimbs a; let b ← parseLimbs b
